@@ -10,6 +10,11 @@ Obligations
   C2         Tokenizer::prepareTernaryOpForAST on raw token lists == model `prep`
   C3         createLinks + prepareTernaryOpForAST + createAst on raw token lists (also malformed) == model `astOf`
 P_impl       tree built by the real code == generating tree (the generating tree is the specification)
+P_token      the operator tokens of the simplified token list == the source's (template-free programs), up to the recognised
+             deliberate simplifications (type words, double sign, constant folding, &a[0], (&a)->m); checked on every pipeline
+             case, also when the tree is well-formed
+declaration positions: `<` `>` `>>` `<<` `<=` `>=` chains over int variables declared first after `{`, after `;`, after `}`, in a
+             nested block, as global after a function body / after `;`, as parameter, second declarator, with a qualified type
 """
 import json, os, re
 from .. import core, build_repo
@@ -31,7 +36,9 @@ EXPLANATION = ("Proved in Lean (unbounded, generic in the level table): for ever
                "model and every correspondence (pipeline, raw createAst, prepareTernaryOpForAST) but not inside the theorems; the mapping of "
                "real tokens to the model's token classes is trusted (flags printed by the harness); tokenizer passes other than "
                "prepareTernaryOpForAST are not modelled (expressions they rewrite are counted as normalised:tokenizer-rewrite and only compared "
-               "model-vs-code); `--dump` (the property's observation point) and the clang oracle of the specification run in the thorough tier "
+               "model-vs-code; P_token: any other change of the operator tokens between lexer and createAst is a violation, also when the tree is "
+               "well-formed); `<`/`>`/`>>` chains are generated over variables in ten declaration positions (C++ template-bracket heuristics); "
+               "`--dump` (the property's observation point) and the clang oracle of the specification run in the thorough tier "
                "only, the quick tier reads astOperand1/2 in-process; new/delete, lambdas, _Generic, initializer lists, templates, keywords, `.*` "
                "are outside the model (Err.outside).")
 THEOREMS = ["Cppcheck.AstLadder.extracted_table_is_C", "Cppcheck.AstLadder.extracted_ladder_wf", "Cppcheck.AstLadder.extracted_skipDecl_guard",
@@ -1061,7 +1068,7 @@ def run_dump(ctx, res, exe, n):
         rc, impl0, err = core.run_lines(exe, [], ops, timeout=900)
         cases = [c for c, o in zip(cases, impl0) if o.startswith("ok")]
         src = PROLOGUE.replace("void f(", "void f0(")
-        body = "".join("x = %s ;\n" % source_of(c["toks"]) for c in cases)
+        body = "x = 0 ;\n" + "".join("x = %s ;\n" % source_of(c["toks"]) for c in cases)
         path = os.path.join(ctx.tmp, "dump_%s.%s" % (lang, lang))
         open(path, "w").write(src + body + "}\n")
         rc, out, err = core.sh([ctx.cppcheck, "--dump", "-q", "--max-configs=1", path], timeout=600)
@@ -1085,13 +1092,14 @@ def run_dump(ctx, res, exe, n):
                 out += poly(toks[t.get("astOperand2")])
             return out
         # statement roots inside f0, in order, by line number (one statement per line)
-        first_line = (src.count("\n")) + 1
+        first_line = (src.count("\n")) + 2
         by_line = {}
         for t in order:
             ln = int(t.get("linenr"))
             if ln >= first_line and not t.get("astParent") and (t.get("astOperand1") or t.get("astOperand2")):
                 by_line.setdefault(ln, []).append(" ".join(poly(t)))
-        ops = ["full %s %s" % (lang, core.hx(PROLOGUE + "x = " + source_of(c["toks"]) + " ;\n}\n")) for c in cases]
+        # same context as in the file (a statement in front: some passes, e.g. simplifyVariableMultipleAssign, look at the previous `;`)
+        ops = ["full %s %s" % (lang, core.hx(PROLOGUE + "x = 0 ;\nx = " + source_of(c["toks"]) + " ;\n}\n")) for c in cases]
         rc, impl, err = core.run_lines(exe, [], ops, timeout=900)
         for i, (c, o) in enumerate(zip(cases, impl)):
             p = parse_impl(o)
@@ -1099,7 +1107,7 @@ def run_dump(ctx, res, exe, n):
             total += 1
             if p is None:
                 continue
-            h = " ; ".join(p[1])
+            h = " ; ".join(p[1][1:])
             res.case("dump|%s|%s" % (lang, source_of(c["toks"])), c["nontrivial"], None)
             if h != d:
                 bad.append((lang, source_of(c["toks"]), h, d))
@@ -1162,7 +1170,7 @@ def gen_valid(rng, depth, cpp):
     return ("pre", op, gen_valid(rng, depth - 1, cpp))
 
 
-def run_clang(ctx, res, n):
+def run_clang(ctx, res, n, extra=()):
     """the python specification (printer + expected tree, i.e. the ISO table as this check states it) against clang's parser"""
     import shutil
     rng = ctx.rng
@@ -1173,10 +1181,12 @@ def run_clang(ctx, res, n):
     for lang in ("c", "cpp"):
         trees = [gen_valid(rng, rng.choice([2, 3, 4, 5]), lang == "cpp") for _ in range(n)]
         cases = [(t, pr(t, L_ASSIGN, rng, rng.choice([0.0, 0.0, 0.2]))) for t in trees]
+        if lang == "cpp":
+            cases += list(extra)          # the `<` `>` `>>` chains of the declaration-position stream: the grammar tree is clang's tree
         path = os.path.join(ctx.tmp, "oracle.%s" % ("c" if lang == "c" else "cpp"))
         with open(path, "w") as f:
             for i, (t, toks) in enumerate(cases):
-                f.write("void f_%d(int a, int b, int c, int d, int e, int x) { x = %s ; }\n" % (i, source_of(toks)))
+                f.write("void f_%d(int a, int b, int c, int d, int e, int la, int lb, int sa, int sb, int sc, int sd, int x) { x = %s ; }\n" % (i, source_of(toks)))
         rc, out, err = core.sh(["clang", "-x", "c" if lang == "c" else "c++", "-w", "-fsyntax-only", "-Xclang", "-ast-dump=json",
                                 "-Xclang", "-ast-dump-filter=f_", path], timeout=900)
         dec, i, objs = json.JSONDecoder(), 0, []
@@ -1392,7 +1402,7 @@ def run(ctx, res):
     # ---- thorough: --dump of the CLI, clang as oracle of the specification ---------------------------------------------------
     if thorough:
         run_dump(ctx, res, exe, 400)
-        run_clang(ctx, res, 400)
+        run_clang(ctx, res, 400, extra=[(c["tree"], c["toks"]) for c in dc if c["lang"] == "cpp"])
 
     # ---- violation search: an obligation is undischarged and nothing concrete (outside the known classes) was found yet ----------
     if any(not o["ok"] for o in res.obligations) and not any(v["concrete"] and v.get("key") is None for v in res.violations):
